@@ -46,6 +46,8 @@ enum FsRes {
     Statfs(Vec<u64>),
     Lock(Vec<u64>),
     Dirents(Vec<(u64, u64, u32, Vec<u8>, Vec<u64>)>),
+    // the filesystem hands over these entries and THEN fails with this errno: the reply must be the error
+    DirentsErr(i32, Vec<(u64, u64, u32, Vec<u8>, Vec<u64>)>),
     Init(u64),
     Ioctl(u32, Vec<u8>),
     Num(u64),
@@ -92,6 +94,18 @@ fn parse_fs(s: &str) -> FsRes {
                 }
             }
             FsRes::Dirents(v)
+        }
+        "direrr" => {
+            let (en, rest2) = rest.split_once(':').unwrap();
+            let mut v = vec![];
+            if !rest2.is_empty() {
+                for d in rest2.split(';') {
+                    let p: Vec<&str> = d.split(',').collect();
+                    let e: Vec<u64> = p[4..26].iter().map(|x| x.parse().unwrap()).collect();
+                    v.push((p[0].parse().unwrap(), p[1].parse().unwrap(), p[2].parse().unwrap(), unhex(p[3]), e));
+                }
+            }
+            FsRes::DirentsErr(en.parse().unwrap(), v)
         }
         "init" => FsRes::Init(rest.parse().unwrap()),
         "ioctl" => {
@@ -375,6 +389,15 @@ impl FileSystem for ScriptFs {
                 }
                 Ok(())
             }
+            FsRes::DirentsErr(en, ds) => {
+                for (ino, off, ty, name, _e) in ds {
+                    match add_entry(DirEntry { ino: *ino, offset: *off, type_: *ty, name })? {
+                        0 => break,
+                        _ => {}
+                    }
+                }
+                Err(io::Error::from_raw_os_error(*en))
+            }
             _ => Err(self.err().unwrap()),
         }
     }
@@ -389,6 +412,15 @@ impl FileSystem for ScriptFs {
                     }
                 }
                 Ok(())
+            }
+            FsRes::DirentsErr(en, ds) => {
+                for (ino, off, ty, name, e) in ds {
+                    match add_entry(DirEntry { ino: *ino, offset: *off, type_: *ty, name }, mk_entry(e))? {
+                        0 => break,
+                        _ => {}
+                    }
+                }
+                Err(io::Error::from_raw_os_error(*en))
             }
             _ => Err(self.err().unwrap()),
         }
